@@ -757,6 +757,35 @@ func forWatchSpecs(c *enumx.Ctx, dir string, visit func(c *enumx.Ctx, w watchSpe
 	}
 }
 
+// forUncleanWatchSpecs: spellings of a watch path that are not in clean form - "..", ".", doubled and trailing slashes -
+// whose ".." follows a regular file, a missing name, a link or a fifo: the object the rule NAMES (the cleaned path, which
+// is what goes into the rule) decides between a directory watch and a path watch, not what the spelling as typed
+// resolves to.
+func forUncleanWatchSpecs(c *enumx.Ctx, dir string, visit func(c *enumx.Ctx, w watchSpec)) {
+	for _, tail := range []string{"/f/..", "/nope/..", "/fifo/..", "/lf/..", "/ldangling/..", "/d/../d", "/f/../d", "/nope/../f", "/f/../f", "/./d", "//d", "/d/", "/d/.", "/d//", "/ld/../f", "/ld/..", "/d/../nope", "/lloop/..", "/f/../../" + filepath.Base(dir)} {
+		for _, perms := range []string{"wa", ""} {
+			for nk := 0; nk <= 1; nk++ {
+				if !c.Mine() {
+					continue
+				}
+				p := dir + tail
+				kind := "missing"
+				if fi, err := os.Stat(filepath.Clean(p)); err == nil {
+					kind = "file"
+					if fi.IsDir() {
+						kind = "dir"
+					}
+				}
+				var keys []string
+				if nk == 1 {
+					keys = []string{"uk"}
+				}
+				visit(c, watchSpec{Path: p, Perms: perms, Keys: keys, Kind: kind})
+			}
+		}
+	}
+}
+
 // withoutDescriptors runs f while the process cannot obtain a new file descriptor (soft RLIMIT_NOFILE 0: every
 // open, socket, pipe ... fails with EMFILE; descriptors already open keep working): a resource condition of the
 // calling process, which no input value reaches.  What a rule means may not depend on it.
@@ -850,17 +879,19 @@ func checkWatchEncoding(c *enumx.Ctx, ws watchSpec) {
 			permWant = 15
 		}
 		nf := 2
-		buf := ws.Path
+		// the name sent to the kernel is the lexically cleaned one (the library cleans it; auditctl strips trailing slashes)
+		wsPath := filepath.Clean(ws.Path)
+		buf := wsPath
 		if len(ws.Keys) > 0 {
 			nf = 3
 			buf += strings.Join(ws.Keys, "\x01")
 		}
-		if int(w.FieldCount) != nf || w.Fields[0] != fieldWant || w.FFlags[0] != uapi("AUDIT_EQUAL") || int(w.Values[0]) != len(ws.Path) ||
+		if int(w.FieldCount) != nf || w.Fields[0] != fieldWant || w.FFlags[0] != uapi("AUDIT_EQUAL") || int(w.Values[0]) != len(wsPath) ||
 			w.Fields[1] != uapi("AUDIT_PERM") || w.FFlags[1] != uapi("AUDIT_EQUAL") || w.Values[1] != permWant {
-			bad("fields", "field_count=%d fields=%v values=%v flags=%#x; want %d fields: (%d,=,len %d) (AUDIT_PERM,=,%d)", w.FieldCount, w.Fields[:3], w.Values[:3], w.FFlags[:3], nf, fieldWant, len(ws.Path), permWant)
+			bad("fields", "field_count=%d fields=%v values=%v flags=%#x; want %d fields: (%d,=,len %d) (AUDIT_PERM,=,%d)", w.FieldCount, w.Fields[:3], w.Values[:3], w.FFlags[:3], nf, fieldWant, len(wsPath), permWant)
 			return
 		}
-		if nf == 3 && (w.Fields[2] != uapi("AUDIT_FILTERKEY") || int(w.Values[2]) != len(buf)-len(ws.Path)) {
+		if nf == 3 && (w.Fields[2] != uapi("AUDIT_FILTERKEY") || int(w.Values[2]) != len(buf)-len(wsPath)) {
 			bad("key", "key field = (%d, len %d)", w.Fields[2], w.Values[2])
 			return
 		}
@@ -961,7 +992,80 @@ func c06Names(c *enumx.Ctx) {
 	}
 }
 
+// c06SharedArrays: rule values are plain structs with slices; callers derive one rule from another (a copy of a base
+// rule plus one more filter / syscall / key), so two rules share ONE backing array with the second owning the slot
+// behind the first's length.  Building the first must leave the second's bytes what they are when it is built alone:
+// the slots behind len() of the slices a rule was given are not Build's to write.
+func c06SharedArrays(c *enumx.Ctx) {
+	filters := []rule.FilterSpec{{Type: rule.ValueFilterType, LHS: "uid", Comparator: "=", RHS: "0"}, {Type: rule.ValueFilterType, LHS: "auid", Comparator: ">=", RHS: "1000"}, {Type: rule.ValueFilterType, LHS: "exe", Comparator: "=", RHS: "/bin/su"}, {Type: rule.InterFieldFilterType, LHS: "uid", Comparator: "!=", RHS: "euid"}}
+	for _, keys1 := range [][]string{nil, {"k1"}, {"k1", "k2"}} {
+		for n := 0; n <= 3; n++ {
+			for _, what := range []string{"filters", "syscalls", "keys", "watch-perms", "watch-keys"} {
+				if !c.Mine() {
+					continue
+				}
+				desc := fmt.Sprintf("shared %s array, first rule has %d elements and keys %v", what, n, keys1)
+				c.Begin(func() string { return desc })
+				c.Try("C06", func() {
+					var first, second, secondAlone rule.Rule
+					switch what {
+					case "filters":
+						arr := make([]rule.FilterSpec, n, n+4)
+						copy(arr, filters)
+						sec := append(arr, filters[n]) // writes slot n of the shared array
+						first = &rule.SyscallRule{Type: rule.AppendSyscallRuleType, List: "exit", Action: "always", Filters: arr, Syscalls: []string{"open"}, Keys: keys1}
+						second = &rule.SyscallRule{Type: rule.AppendSyscallRuleType, List: "exit", Action: "always", Filters: sec, Syscalls: []string{"open"}}
+						secondAlone = &rule.SyscallRule{Type: rule.AppendSyscallRuleType, List: "exit", Action: "always", Filters: append([]rule.FilterSpec{}, sec...), Syscalls: []string{"open"}}
+					case "syscalls":
+						arr := make([]string, n, n+4)
+						copy(arr, []string{"open", "close", "read"})
+						sec := append(arr, "execve")
+						first = &rule.SyscallRule{Type: rule.AppendSyscallRuleType, List: "exit", Action: "always", Filters: filters[:1], Syscalls: arr, Keys: keys1}
+						second = &rule.SyscallRule{Type: rule.AppendSyscallRuleType, List: "exit", Action: "always", Filters: filters[:1], Syscalls: sec}
+						secondAlone = &rule.SyscallRule{Type: rule.AppendSyscallRuleType, List: "exit", Action: "always", Filters: filters[:1], Syscalls: append([]string{}, sec...)}
+					case "keys":
+						arr := make([]string, n, n+4)
+						copy(arr, []string{"a", "b", "c"})
+						sec := append(arr, "zz")
+						first = &rule.SyscallRule{Type: rule.AppendSyscallRuleType, List: "exit", Action: "always", Filters: filters[:2], Syscalls: []string{"open"}, Keys: arr}
+						second = &rule.SyscallRule{Type: rule.AppendSyscallRuleType, List: "exit", Action: "always", Filters: filters[:2], Syscalls: []string{"open"}, Keys: sec}
+						secondAlone = &rule.SyscallRule{Type: rule.AppendSyscallRuleType, List: "exit", Action: "always", Filters: filters[:2], Syscalls: []string{"open"}, Keys: append([]string{}, sec...)}
+					case "watch-perms":
+						arr := make([]rule.AccessType, n, n+4)
+						copy(arr, []rule.AccessType{rule.ReadAccessType, rule.WriteAccessType, rule.ExecuteAccessType})
+						sec := append(arr, rule.AttributeChangeAccessType)
+						first = &rule.FileWatchRule{Type: rule.FileWatchRuleType, Path: "/etc/passwd", Permissions: arr, Keys: keys1}
+						second = &rule.FileWatchRule{Type: rule.FileWatchRuleType, Path: "/etc/passwd", Permissions: sec}
+						secondAlone = &rule.FileWatchRule{Type: rule.FileWatchRuleType, Path: "/etc/passwd", Permissions: append([]rule.AccessType{}, sec...)}
+					case "watch-keys":
+						arr := make([]string, n, n+4)
+						copy(arr, []string{"a", "b", "c"})
+						sec := append(arr, "zz")
+						first = &rule.FileWatchRule{Type: rule.FileWatchRuleType, Path: "/etc/passwd", Permissions: []rule.AccessType{rule.WriteAccessType}, Keys: arr}
+						second = &rule.FileWatchRule{Type: rule.FileWatchRuleType, Path: "/etc/passwd", Permissions: []rule.AccessType{rule.WriteAccessType}, Keys: sec}
+						secondAlone = &rule.FileWatchRule{Type: rule.FileWatchRuleType, Path: "/etc/passwd", Permissions: []rule.AccessType{rule.WriteAccessType}, Keys: append([]string{}, sec...)}
+					}
+					want, werr := rule.Build(secondAlone)
+					for rep := 0; rep < 2; rep++ {
+						_, _ = rule.Build(first)
+					}
+					got, gerr := rule.Build(second)
+					if (werr == nil) != (gerr == nil) || !bytes.Equal(want, got) {
+						c.Report("C06 build-writes-into-shared-array:"+what, fmt.Sprintf("%s: the second rule (one more element in the same backing array) builds to\n  % x (%v)\nafter the first rule was built, but to\n  % x (%v)\nfrom a private copy of the same value: building the first rule wrote behind the length of a slice it was given", desc, []byte(got), gerr, []byte(want), werr), nil)
+						return
+					}
+					if werr == nil {
+						c.Nontrivial()
+					}
+				})
+			}
+		}
+	}
+	c.Sample("base := filters[:2:6]; r1 = {Filters: base, Keys: [k]}; r2 = {Filters: append(base, f3)}; Build(r1); Build(r2) == Build(copy of r2)")
+}
+
 func init() {
+	gens["c06-shared-arrays"] = c06SharedArrays
 	gens["c06-names"] = c06Names
 	gens["c06-rules"] = func(c *enumx.Ctx) {
 		forRuleSpecs(c, checkEncoding)
@@ -973,5 +1077,6 @@ func init() {
 		forWatchSpecs(c, dir, checkWatchEncoding)
 		forWatchSpecs(c, dir, func(c *enumx.Ctx, w watchSpec) { withoutDescriptors(func() { checkWatchEncoding(c, w) }) })
 		forWatchHistories(c, dir, checkWatchEncoding)
+		forUncleanWatchSpecs(c, dir, checkWatchEncoding)
 	}
 }
